@@ -365,6 +365,23 @@ Balanced(ops) == LET dp == DepthsOf(ops) IN
   /\ \A i \in 1..Len(ops) : dp[i] >= 0
   /\ (Len(ops) > 0 => dp[Len(ops)] = 0)
 
+\* position of the pop that closes the push at position i
+MatchPop(ops, i) == LET dp == DepthsOf(ops) IN
+  CHOOSE m \in (i + 1)..Len(ops) : dp[m] = dp[i] - 1 /\ \A x \in (i + 1)..(m - 1) : dp[x] >= dp[i]
+\* the bytes the protocol prescribes for ops[i..j]: every primitive as Enc says; a length field holds the
+\* number of bytes between it and its pop (INT32, or zig-zag varint), a CRC field covers exactly those bytes
+RECURSIVE Ref(_, _, _)
+Ref(ops, i, j) ==
+  IF i > j THEN <<>>
+  ELSE IF IsPush(ops[i]) THEN
+     LET m == MatchPop(ops, i)
+         body == Ref(ops, i + 1, m - 1)
+         field == CASE ops[i].k = "push_len" -> BE(I(Len(body)), 4)
+                    [] ops[i].k = "push_varlen" -> Var(I(Len(body)))
+                    [] OTHER -> [x \in 1..4 |-> CrcCell(i, x)] IN
+     field \o body \o Ref(ops, m + 1, j)
+  ELSE Enc(ops[i]) \o Ref(ops, i + 1, j)
+
 \* getArrayLength refuses a count larger than the bytes that follow: the documented domain of an ARRAY
 \* count is "followed by that many elements of at least one byte"
 InDomain(ops, offs, total) == \A i \in 1..Len(ops) : (ops[i].k = "arrlen") => ops[i].n <= total - offs[i]
